@@ -8,8 +8,9 @@ def seq(items): return "<<" + ", ".join(items) + ">>"
 
 # kind -> base model value (as TLA+ text); list kinds get 3 elements, the generator takes prefixes
 H1, H2, H3 = "d41d8cd98f00b204e9800998ecf8427e", "da39a3ee5e6b4b0d3255bfef95601890afd80709", "e3b0c44298fc1c149afbf4c8996fb92427ae41e4649b934ca495991b7852b855"
+H4 = "cf83e1357eefb8bdf1542850d66d8007d620e4050b5715dc83f4a921d36ce9ce47d0d13c5d85f2b0ff8318d2877eec2f63b931bd47417a81a538327af927da3e"
 def sums(alg):
-    h = {"md5": H1, "sha1": H2, "sha256": H3}[alg]
+    h = {"md5": H1, "sha1": H2, "sha256": H3, "sha512": H4}[alg]
     return seq([seq([b(h), b(str(n)), b(name)]) for n, name in ((1234, "pkg_1.0.orig.tar.gz"), (567, "pkg_1.0-1.debian.tar.xz"), (89, "pkg_1.0-1.dsc"))])
 chfiles = seq([seq([b(H1), b(str(n)), b(sec), b(pri), b(name)]) for n, sec, pri, name in
                ((1234, "utils", "optional", "pkg_1.0-1.dsc"), (567, "non-free/libs", "extra", "pkg_1.0-1_amd64.deb"), (89, "utils", "optional", "pkg_1.0.orig.tar.gz"))])
@@ -27,11 +28,13 @@ VAL = {
  "slist": lambda f: seq([b("pkg"), b("libpkg1"), b("pkg-doc")]) if f == "Binary" else seq([b("783746"), b("12345"), b("999")]),
  "cslist": lambda f: seq([b("role::program"), b("interface::commandline"), b("uitoolkit::ncurses")]),
  "mstring": lambda f: seq([b("pkg (1.0-1) unstable; urgency=low"), b(""), b("  * Initial release, closes"), b("    #805204.")]) if f == "Changes" else seq([b("short description"), b("long text"), b(""), b("# not a comment: a line of the text"), b("more text")]),
- "sums:md5": lambda f: sums("md5"), "sums:sha1": lambda f: sums("sha1"), "sums:sha256": lambda f: sums("sha256"),
+ "sums:md5": lambda f: sums("md5"), "sums:sha1": lambda f: sums("sha1"), "sums:sha256": lambda f: sums("sha256"), "sums:sha512": lambda f: sums("sha512"),
  "chfiles": lambda f: chfiles,
 }
 # (Debian field name, flat key, kind)
 KINDS = {
+ # a caller's own struct that embeds control.BestChecksums (the accessor Checksums() prefers SHA-256, falls back to SHA-512)
+ "best": [("Package","Package","scalar"),("Checksums-Sha256","ChecksumsSha256","sums:sha256"),("Checksums-Sha512","ChecksumsSha512","sums:sha512")],
  "dsc": [("Format","Format","scalar"),("Source","Source","scalar"),("Binary","Binaries","clist"),("Architecture","Architectures","archs"),
          ("Version","Version","version"),("Origin","Origin","scalar"),("Maintainer","Maintainer","scalar"),("Uploaders","Uploaders","clist"),
          ("Homepage","Homepage","scalar"),("Standards-Version","StandardsVersion","scalar"),
